@@ -193,7 +193,7 @@ func init() {
 			"shuffled, or all areas first; goroutine counts: all of 2..16 for the in-memory builder, 1-2 of 1..16 per compact case, every count within 8 compact cases); distinct = builder + source; " +
 			"non-trivial = the source has a clockwise loop or an invalid feature, and at least 3 areas+paths",
 		Assumptions: []string{"every build gets fresh feature values of the same source", "the index bytes are not compared (string-table order of equal counts is unspecified)"},
-		Quick:       24, Thorough: 256,
+		Quick:       24, Thorough: 160,
 		Batch: 4, MaxParallel: 4,
 		Race: true, RaceThorough: true,
 		// the cap is a safety net only: a case costs seconds, but the box may be shared and builds allocate ~80 MB per goroutine and stage
